@@ -532,7 +532,18 @@ func checkPayload(c *collector, seq []pkt, st *stats) {
 		err2 := parser.EncodePayloads(&pw, pks...)
 		stage = "DecodePayloads"
 		if len(seq) == 0 {
-			// nothing to send: the statement only asks that nothing panics
+			// nothing to send (a long poll that times out with an empty queue answers exactly this): nothing
+			// is written, nothing panics, and the advertised length is the real one - it becomes the
+			// Content-Length of the answer and the size buffers are grown to
+			if err != nil || err2 != nil {
+				fail("encode-error", fmt.Sprint(err, err2))
+			}
+			if buf.Len() != 0 || len(pw.b) != 0 {
+				fail("bytes-differ-from-v4", fmt.Sprintf("EncodePayloads of no packets wrote %s", q(buf.Bytes())))
+			}
+			if l != buf.Len() {
+				fail("encoded-len", fmt.Sprintf("EncodedPayloadsLen = %d, EncodePayloads wrote %d bytes", l, buf.Len()))
+			}
 			parser.DecodePayloads(bytes.NewReader(buf.Bytes()))
 			return
 		}
